@@ -15,11 +15,12 @@ CHILD = os.path.join(core.VERIF, "checks", "child.py")
 # ------------------------------------------------------------------ probes
 
 
-def probe(scenario):
-    """Generate the probe's grid in this interpreter; numeric digest or refusal."""
+def probe(scenario, path=None):
+    """Generate the probe's grid in this interpreter; numeric digest or refusal.  `path`
+    may name a file that an earlier operation has already written."""
     d = engines.scratch_dir()
     try:
-        path = os.path.join(d, "probe.nc")
+        path = path or os.path.join(d, "probe.nc")
         res = gridsim.run(scenario, path)
         out = {"outcome": res["outcome"], "exc": res["exc"], "msg": res.get("msg")}
         if res["outcome"] == "returned":
@@ -101,10 +102,12 @@ SWARM = [
 ]
 
 
-def swarm(rng, options):
+def swarm(rng, options, geometry=None):
     if rng.random() < 0.6:
         for frag in rng.sample(SWARM, rng.choice((1, 2, 3))):
             options.update(frag)
+    if geometry in ("lsn", "usn") and rng.random() < 0.25:
+        options["psi_interpolation_method"] = "dct"  # double nulls are refused with dct
     return options
 
 
@@ -116,7 +119,7 @@ def history_ops(rng, key):
                         "grid_par"))
         if k == "grid":
             sc = probe_scenarios(rng, 5)[rng.randrange(5)]
-            swarm(rng, sc["options"])
+            swarm(rng, sc["options"], sc.get("geometry"))
             ops.append({"op": "grid", "scenario": sc,
                         "upto": rng.choice(("construct", "geometry", "write"))})
         elif k == "grid_par":
@@ -158,7 +161,7 @@ def history_ops(rng, key):
     return ops
 
 
-def exec_op(op):
+def exec_op(op, probe_path=None):
     """Execute one earlier operation; every hypnotoad exception is swallowed (the user
     carries on in the same interpreter, as in the GUI or a notebook)."""
     warnings.simplefilter("ignore")
@@ -169,7 +172,10 @@ def exec_op(op):
             try:
                 sc = op["scenario"]
                 if op["upto"] == "write" or sc.get("np", 1) > 1:
-                    r = gridsim.run(sc, os.path.join(d, "x.nc"))
+                    out = os.path.join(d, "x.nc")
+                    if op.get("to_probe_path") and probe_path:
+                        out = probe_path  # the user keeps writing to the same file name
+                    r = gridsim.run(sc, out)
                     return r["outcome"]
                 with workloads.env_seams():
                     from . import faults
@@ -233,10 +239,15 @@ def exec_op(op):
 
 def run_history(ops, probe_scenario):
     workloads.INPUT_MUTATIONS.clear()
-    outcomes = [exec_op(op) for op in ops]
-    mutations_ops = list(workloads.INPUT_MUTATIONS)
-    workloads.INPUT_MUTATIONS.clear()
-    p = probe(probe_scenario)
+    pdir = engines.scratch_dir()
+    probe_path = os.path.join(pdir, "bout.grd.nc")
+    try:
+        outcomes = [exec_op(op, probe_path) for op in ops]
+        mutations_ops = list(workloads.INPUT_MUTATIONS)
+        workloads.INPUT_MUTATIONS.clear()
+        p = probe(probe_scenario, probe_path)
+    finally:
+        shutil.rmtree(pdir, ignore_errors=True)
     mutations_probe = list(workloads.INPUT_MUTATIONS)
     workloads.INPUT_MUTATIONS.clear()
     return {"op_outcomes": outcomes, "probe": p,
